@@ -114,6 +114,14 @@ def build_data(cfg, with_bases):
                     for j in range(nv):
                         if g.random() < 0.5:
                             bases[i, j] = letters[int(g.integers(0, len(letters)))]
+        elif mode == "all_random":
+            # a randomised-measurement record: (almost) every row has its own setting
+            bases[...] = np.array(letters)[g.integers(0, len(letters), size=(N, nv))]
+        elif mode == "high_sites":
+            # wide systems: only the last two sites are ever rotated (each row differently)
+            for i in range(N):
+                for j in range(max(0, nv - 2), nv):
+                    bases[i, j] = letters[int(g.integers(0, len(letters)))]
         elif mode == "repeated":
             row = np.array([letters[int(g.integers(0, len(letters)))] for _ in range(nv)])
             for i in range(N):
